@@ -31,3 +31,13 @@ From Coq Require Import ZArith.
 Theorem C07_build_ops_ssa : forall c, wf_netlist c -> comb_acyclic c ->
   ssa_topo (repeat (-1)%Z (length (c_lines c) + 3 + 2 * length (s_nodes c))) (length (c_lines c) + 1) (build_ops c false) = true.
 Proof. exact KV.Proofs.SemProofs.build_ops_ssa. Qed.
+
+(* UNCONDITIONAL: for every well-formed, combinationally acyclic netlist the level partition SimOps publishes
+   (fork stripping off) is a checked schedule *)
+From KV Require Proofs.SemCompose.
+Theorem C07_build_levels_valid : forall c, wf_netlist c -> comb_acyclic c ->
+  let nl := length (c_lines c) in let len := nl + 3 + 2 * length (s_nodes c) in
+  let stems := repeat (-1)%Z len in
+  sched_check (stemmed stems) (nl + 1)
+    (split_levels (rev (ls_starts (levelize stems (build_ops c false) len))) (build_ops c false) 0) = true.
+Proof. exact KV.Proofs.SemCompose.build_levels_valid. Qed.
